@@ -135,6 +135,10 @@ FAMILIES = [
                                defaults={'args': (), 'kwargs': None}, ret=ANY,
                                raises=['InternalError', 'Raised[Reply]'], modifies=[('CS', 'is_crashed')],
                                effects=['send'], assumed=False),
+               'run': FnSpec('CS.run', params=[('inference_state_id', ANY), ('function', ANY), ('args', ANY),
+                                               ('kwargs', ANY)], ret=ANY, raises=['InternalError', 'Exception'],
+                             modifies=[('CS', 'is_crashed'), ('CS', '_inference_state_deletion_queue')],
+                             effects=['run'], assumed=False, note='C14.run'),
                'delete_inference_state': FnSpec('CS.delete_inference_state', params=[('id', ANY)], ret=None,
                                                 effects=['enqueue-delete'],
                                                 modifies=[('CS', '_inference_state_deletion_queue')], assumed=False),
@@ -144,10 +148,53 @@ FAMILIES = [
     Family('Bytes', methods={'decode': FnSpec('bytes.decode', params=[('enc', STR), ('errors', STR)], ret=STR,
                                              pure=True, assumed=True)}),
     Family('Reply', fields={'args': Tup(ANY)}),
-    Family('ISS', attrs={'_used': BOOL, '_compiled_subprocess': _CS, '_inference_state_id': ANY}),
+    Family('ISS', fields={'_used': BOOL}, attrs={'_compiled_subprocess': _CS, '_inference_state_id': ANY},
+           methods={'_convert_access_handles': FnSpec('ISS._convert_access_handles', params=[('obj', ANY)], ret=ANY,
+                                                      pure=True, assumed=True, note='rewrites handles in the reply')}),
 ]
 
-CONTRACTS = [_send, _kill, _run, _del_state, _dunder_del]
+def _replay_wrapper(inp):
+    """the real wrapper on a subprocess whose run() raises (the helper-side function raised)"""
+    from pyvc.replay import run_real
+    from jedi.inference.compiled.subprocess import InferenceStateSubprocess
+
+    class FakeCS:
+        is_crashed = False
+        deleted = []
+
+        def run(self, *a, **kw):
+            if inp['helper_raises']:
+                raise ValueError('raised inside the helper')
+            return 1
+
+        def delete_inference_state(self, id_):
+            self.deleted.append(id_)
+
+    class FakeState:
+        pass
+    cs = FakeCS()
+    cs.deleted = []
+    iss = InferenceStateSubprocess(FakeState(), cs)
+    out = run_real(lambda: iss.get_sys_path())
+    used = iss._used
+    iss.__del__()
+    return {'USED': used, 'RELEASED': len(cs.deleted) == 1}, out
+
+
+_wrapper = Contract(
+    id='C14.InferenceStateSubprocess.__getattr__.wrapper', prop='C14',
+    clause='a Script is marked as having used the helper BEFORE its request is sent, so that its helper-side state '
+           'is released also when every request of that Script raised (the helper created the state on the first '
+           'request it received)',
+    file='jedi/inference/compiled/subprocess/__init__.py', qualname='InferenceStateSubprocess.__getattr__.wrapper',
+    params={'args': ANY, 'kwargs': ANY}, free={'self': Obj('ISS'), 'func': ANY}, families=['ISS', 'CS'],
+    ensures_all=['self._used'],
+    witness={}, replay=_replay_wrapper, concrete_only=True,
+    witness_library=[{'helper_raises': True}, {'helper_raises': False}],
+    concrete_ensures=['USED and RELEASED'],
+)
+
+CONTRACTS = [_send, _kill, _run, _del_state, _dunder_del, _wrapper]
 
 
 def register(reg):
@@ -210,7 +257,32 @@ def structural_cleanup(repo):
     return out
 
 
-STRUCTURAL = [structural_cleanup]
+def structural_queue(repo):
+    """the sequence model of the deletion queue (C14.run / C14.delete_inference_state: append keeps everything, run
+    drains everything) is only valid for an unbounded FIFO: a deque/list without maxlen"""
+    rel = 'jedi/inference/compiled/subprocess/__init__.py'
+    try:
+        tree = ast.parse(open(os.path.join(repo, rel), encoding='utf-8').read())
+    except (OSError, SyntaxError) as e:
+        return [{'id': 'deletion-queue-unbounded', 'kind': 'post', 'ok': None, 'label': 'cannot parse %s: %s' % (rel, e)}]
+    ctors = []
+    for n in ast.walk(tree):
+        if isinstance(n, ast.Assign):
+            for t in n.targets:
+                if isinstance(t, ast.Attribute) and t.attr == '_inference_state_deletion_queue':
+                    ctors.append(ast.unparse(n.value))
+    ok = None
+    if ctors:
+        if all(c in ('collections.deque()', 'deque()', '[]', 'list()') for c in ctors):
+            ok = True
+        elif any('maxlen' in c or (c.startswith(('collections.deque(', 'deque(')) and ',' in c) for c in ctors):
+            ok = False          # a bounded deque silently drops the oldest ids: those states are never released
+    return [{'id': 'deletion-queue-unbounded', 'kind': 'post', 'ok': ok,
+             'label': 'the deletion queue is an unbounded FIFO (deque() / list): no queued state id is ever dropped '
+                      'before it was sent to the helper', 'detail': repr(ctors)}]
+
+
+STRUCTURAL = [structural_cleanup, structural_queue]
 NOT_DECIDED = ['"no query hangs" (liveness: a helper that is alive but stuck blocks pickle_load forever)',
                'file-descriptor accounting at OS level', 'true concurrency of the stderr thread / __del__ inside run()',
                'Listener side (__main__, _run): contracts pending']
